@@ -17,6 +17,8 @@ MODULE = "MC_sched.tla"
 def job(j):
     if j.get("kind") == "introspect":
         return introspect_job(j)
+    if j.get("kind") == "long":
+        return long_job(j)
     if j.get("r3"):
         import schedtrace
         return schedtrace.job(j)
@@ -52,6 +54,57 @@ def job(j):
     return {"job": j, "tlc": [genrun.tlc_summary(cfg, res)], "evaluations": st["n"], "distinct": list(st["distinct"]),
             "samples": st["samples"], "violations": st["viol"],
             "extra": {"schedules_with_model_deviation": st["dev"], "schedules_with_2plus_pending": st["multi"]}}
+
+
+def long_job(j):
+    """long lists (40 items of objects with object sub-fields) under random schedules and every flag set: execute terminates,
+    data is the big-step data"""
+    import random
+    from schedtrace import FLAGSETS
+    rng = random.Random(j["seed"])
+    st = {"world": None, "n": 0, "viol": [], "distinct": set()}
+
+    def on_line(rec):
+        if rec["kind"] == "schema":
+            if st["world"] is None:
+                st["world"] = World(rec["types"], rec["roots"])
+            return
+        if not any(o.get("n", 0) >= 40 for _p, o in rec["overlay"]):
+            return
+        w = st["world"]
+        all_fields = sorted({f for td in w.types.values() if td["kind"] == "OBJECT" for f in td["fields"]})
+        for fl in FLAGSETS:
+            st["n"] += 1
+            seq = all_fields if fl["seq"] == "ALL" else fl["seq"]
+            c = dict(rec, seq=seq, lconc=fl["lconc"], argsync=bool(st["n"] % 2))
+            g = execreplay.GatedRun(w, c, execreplay.engine_cfg_for(c))
+            g.start()
+            steps = 0
+            mm = []
+            while not g.done() and steps < 5000:
+                pend = sorted(g.pending())
+                if not pend:
+                    mm.append("deadlock: execute not finished and no resolver pending (after %d releases)" % steps)
+                    break
+                g.release(pend[rng.randrange(len(pend))])
+                steps += 1
+            if not mm:
+                resp = g.result()
+                mm = execreplay.compare_faults(c, resp, g.cs, g.doc)
+            else:
+                for f in g.cs.gates.values():
+                    if not f.done():
+                        f.cancel()
+                g.task.cancel()
+                g.loop.idle()
+            w.case = None
+            st["distinct"].add(hash((g.doc.text, repr(seq), fl["lconc"])))
+            if mm:
+                genrun.add_viol(st["viol"], ({"kind": "schedule-mismatch", "config": "MC_exec_long.cfg", "first": mm[0][:140]}, {"case": {k: v for k, v in rec.items() if k != "calls"}, "query": g.doc.text, "mismatches": mm[:5]}))
+
+    res = tlc.run("MC_exec.tla", "MC_exec_long.cfg", on_line=on_line, workers=1, timeout=1500)
+    return {"job": j, "tlc": [genrun.tlc_summary("MC_exec_long.cfg", res)], "evaluations": st["n"], "distinct": list(st["distinct"]), "samples": [], "violations": st["viol"],
+            "extra": {"long_list_schedules": st["n"]}}
 
 
 INTRO_SDL = """
@@ -133,6 +186,7 @@ def main(argv, pid=PID, cfgs=None, serial=False):
     if pid == "C08":
         jobs.append({"cfg": "MC_sched_live.cfg", "r1only": True})
         jobs.append({"kind": "introspect"})
+        jobs.append({"kind": "long", "seed": common.seed() + 77})
     nr3 = (8 if thorough else 3) if pid == "C08" else (4 if thorough else 2)
     for k in range(nr3):
         jobs.append({"r3": True, "seed": common.seed() * 1000 + k + (1 if pid == "C08" else 501), "behaviours": 1200 if thorough else 400,
